@@ -59,7 +59,7 @@ def _values(case):
     return vals
 
 
-def check(log, tvals, final, quiescent):
+def check(log, tvals, final, quiescent, cond_handling=None):
     viol = []
     stats = {}
     expected = {}        # label -> ('ok', v) | ('exc', type, args)
@@ -73,6 +73,7 @@ def check(log, tvals, final, quiescent):
     order_open = None    # label whose callbacks are being run (between its P and the next P / step end)
     escapes = {}         # step -> exc
     expect_escape = {}   # step -> (label, exc)
+    lenient_steps = set()
 
     for lb, v in tvals.items():
         expected[lb] = ('ok', v)
@@ -151,6 +152,8 @@ def check(log, tvals, final, quiescent):
             step_of_P[lb] = (g, st, lst)
             regs[lb] = []
             e = exp_for(lb)
+            if e is None and cond_handling is not None and ok is False and isinstance(val, tuple):
+                e = expected[lb] = ('exc', val[1], val[2])   # a failed condition forwards an operand's failure
             if e is not None:
                 # the outcome the kernel presents must be the one the event was triggered with
                 if e[0] == 'ok' and not (ok is True and val == e[1]):
@@ -166,6 +169,13 @@ def check(log, tvals, final, quiescent):
             if e is not None and e[0] == 'exc':
                 nontrivial = True
                 handled = any(x[0] == 'proc' or (x[0] == 'cb' and x[2]) for x in lst)
+                if not handled and cond_handling is not None:
+                    ch = cond_handling(lb, g)
+                    if ch == 'handled':
+                        handled = True
+                    elif ch == 'lenient':
+                        lenient_steps.add(st)
+                        handled = True
                 if not handled:
                     expect_escape[st] = (lb, e)
                 if any(x[0] == 'proc' for x in lst) and any(x[0] == 'cb' and not x[2] for x in lst):
@@ -233,7 +243,7 @@ def check(log, tvals, final, quiescent):
         elif not (x[0] == 'exc' and x[1] == e[1] and x[2] == e[2]):
             viol.append(('C02.6', 'unhandled failure of %s (%s%r) escaped as %r' % (lb, e[1], e[2], x)))
     for st, x in escapes.items():
-        if st not in expect_escape:
+        if st not in expect_escape and st not in lenient_steps:
             viol.append(('C02.6', 'step %d raised %r although no unhandled failed event was processed in it' % (st, x)))
     return viol, stats, nontrivial
 
